@@ -2,7 +2,6 @@ package checks
 
 import (
 	"bytes"
-	"testing/fstest"
 	"context"
 	"encoding/json"
 	"errors"
@@ -10,6 +9,7 @@ import (
 	"os"
 	"sort"
 	"strings"
+	"testing/fstest"
 	"time"
 
 	"github.com/ichiban/prolog"
@@ -29,8 +29,11 @@ type c05Case struct {
 	NilIO bool   `json:"nil_io,omitempty"`
 	Tag   string `json:"tag,omitempty"` // signature label for the arithmetic and stream matrices
 	Setup string `json:"setup,omitempty"`
-	Files bool `json:"files,omitempty"` // run against the in-memory file system of family (g)
-	Deep  bool `json:"deep,omitempty"`  // family (h): one goal after Setup, first answer, 5 minute resource guard
+	Files bool   `json:"files,omitempty"` // run against the in-memory file system of family (g)
+	// FileText / FileName: family (j), the file the goal opens (written before the goal runs)
+	FileText string `json:"file_text,omitempty"`
+	FileName string `json:"file_name,omitempty"`
+	Deep     bool   `json:"deep,omitempty"` // family (h): one goal after Setup, first answer, 5 minute resource guard
 	// SetupQuery: a query run first on the same interpreter (stream histories)
 	SetupQuery string `json:"setup_query,omitempty"`
 }
@@ -282,6 +285,7 @@ func c05Work(w *h.W) {
 		c05DB(w, emit)
 		c05StreamHistories(w, emit)
 		c05Files(w, emit)
+		c05MalformedFiles(w, emit)
 	}
 	for _, pr := range c05Procedures() {
 		if pr.Name == "halt" {
@@ -684,6 +688,52 @@ var c05DeepGoals = []string{
 	"catch(th(%d), bottom, true).", "mk(%d, L), app(L, [z], R), atom(z).", "mk(%d, L), findall(L, true, [M]), L == M.",
 }
 
+// (j) files of malformed text read term by term and character by character under each eof_action: every operation
+// returns, whatever the earlier ones left the stream in (past the end, in the middle of a rejected term).
+var c05FileTexts = []string{"", "a.", "a. b", "ok(1).\nfoo bar", "foo )", "foo bar\n", "'abc", "f(", "0'", "a. /* c", "a.\n% c", "X = [-", "\"ab", "a :- .", ")))", "foo. )", "\xff\xfe."}
+var c05FileOps = []string{"read(S, _)", "get_char(S, _)", "peek_char(S, _)", "at_end_of_stream(S)", "read_term(S, _, [singletons(_)])", "stream_property(S, position(_))"}
+
+func c05MalformedFiles(w *h.W, emit func(c *c05Case, kind, detail string, size int)) {
+	p := c05NewInterp(false)
+	n := 0
+	maxOps := w.Pick(3, 4)
+	for ti, txt := range c05FileTexts {
+		name := fmt.Sprintf("c05_mal_%d.txt", ti)
+		if err := os.WriteFile(name, []byte(txt), 0o644); err != nil {
+			continue
+		}
+		for _, act := range []string{"error", "eof_code", "reset"} {
+			for l := 1; l <= maxOps; l++ {
+				seqs(l, len(c05FileOps), func(idx []int) bool {
+					if !w.Mine() {
+						return true
+					}
+					if w.Expired() {
+						return false
+					}
+					goal := fmt.Sprintf("open('%s', read, S, [eof_action(%s)])", name, act)
+					for _, i := range idx {
+						goal += ", catch(" + c05FileOps[i] + ", _, true)"
+					}
+					goal += ", close(S) ."
+					c := &c05Case{Kind: "goal", Goal: goal, Tag: "malformed file", FileText: txt, FileName: name}
+					if n%100 == 0 {
+						p = c05NewInterp(false)
+					}
+					n++
+					w.WAL(c)
+					w.GuardFor(c, 20*time.Second)
+					kind, detail := c05RunGoal(p, c)
+					w.Unguard()
+					w.Nontrivial(c.Goal + txt)
+					emit(c, kind, detail, len(idx))
+					return true
+				})
+			}
+		}
+	}
+}
+
 // (i) long lists and wide compounds: 3 million elements under the workers' stack limit stand for the 10 million (160 MB
 // of cells) that fit into the bound with room to spare. A traversal that recurses once per element - a list is a
 // right-nested term - needs a stack as deep as the list is long.
@@ -841,6 +891,9 @@ func c05Replay(b []byte) (string, string, bool) {
 			kind = ""
 		}
 	} else {
+		if c.FileName != "" {
+			os.WriteFile(c.FileName, []byte(c.FileText), 0o644)
+		}
 		kind, detail = c05RunGoal(c05NewInterp(c.NilIO), &c)
 	}
 	if kind == "" {
@@ -851,10 +904,10 @@ func c05Replay(b []byte) (string, string, bool) {
 
 func init() {
 	h.Register(&h.Check{
-		ID: "C05",
-		Rule: "(a) ALL strings of <= L symbols over a 29-symbol token alphabet taken from the lexer's switch (atoms, variables, digits, '.', ',', '|', every bracket, '-', '+', '\\\\', quote characters, 0', 0x, :-, layout, %, /*, a non-ASCII letter, a float prefix) each as is, with '.', and with ' .\\n', handed to Exec and to Query; all byte strings of length 1 and (quick: every 7th; thorough: all) of length 2; (b) EVERY registered procedure (read from the interpreter through a verif-tagged accessor, so the matrix follows the code) except halt/0,1 x all tuples of 14 (thorough: 22) argument shapes for arity <= 3 and of 8 (arity 4, 5) / 6 shapes above (unbound, atoms incl. empty, [], integers incl. extremes, float, compound, proper/partial/improper list, string, a stream, callable and non-callable terms), first answer plus one retry then Close, on an interpreter with real streams and (quick: every 5th tuple) on the documented prolog.New(nil, nil); (c) EVERY evaluable functor of eval's dispatch tables (read through a verif-tagged accessor) x a 25-value operand grid (unbound, atom, integers incl. 63/64/-64/extremes, floats incl. -0.0, largest and smallest, compound, string, lists, nested error) for both operands, unary ones also over every unary functor nested inside (thorough: every binary too), each under is/2, three comparisons and catch/3; (d) every procedure of arity 1..4 x 7 kinds of stream argument (closed input/output, open text/binary input/output, at end, closed alias) in every argument position x all tuples of 10 other shapes (quick, arity 4: 5); (e) database histories: all conjunctions of <= 3 (thorough: 4) goals from a 20-goal menu that calls, retracts, asserts, abolishes and enumerates a dynamic predicate with three clauses while calls of it are open, with and without a final fail, up to 20 answers; (f) stream-state histories: all sequences of <= 3 (4) of 14 operations that open, close, alias and make current input/output streams (the standard streams included), each followed by each of 17 probes that use a stream; (g) 20 file names x 8 forms of include/ensure_loaded/consult (directive, initialization goal, between clauses, goal, retried goal, list notation) over an in-memory file system with self-including, mutually including and mutually loading files, a chain of 300 inclusions, a missing file, a file with a syntax error; (h) deep recursion: 12 recursion shapes (tail and non-tail counting, list construction and traversal, through call/1, catch/3, if-then-else, disjunction, mutual recursion, an error thrown at the bottom, append/3, findall/3 and ==/2 of a long list) at depths 100000 and 300000 under a 256 MB stack limit (the scaled equivalent of 1.2 million levels under Go's default limit, which is what fits into a 2 GB memory bound); (i) long lists and wide compounds: 22 goals that unify, compare, copy, collect the variables of, sort, assert, throw, call, write, take apart lists of 3 million elements and compounds of 3 million arguments (standing for 10 million under the default limit), first answer. Distinct = text or goal.",
-		Explanation: "state = a fresh (or regularly renewed) real interpreter in an isolated worker process; transition = one Exec/Query call; oracle: the worker process survives (a fatal runtime error is attributed to the exact input through a write-ahead record, re-running the batch in fine mode), the call returns (per-case watchdog), an error raised by a predicate is error(Formal, _) with an ISO formal error term, and no returned error is the residue of a recovered Go panic",
-		Assumptions: []string{"workers run in an empty scratch directory with GOMAXPROCS=1 and a 256 MB goroutine stack limit so that unbounded recursion dies quickly", "a Go error returned for a text that does not parse is the API's way to report a syntax error and is accepted"},
+		ID:            "C05",
+		Rule:          "(a) ALL strings of <= L symbols over a 29-symbol token alphabet taken from the lexer's switch (atoms, variables, digits, '.', ',', '|', every bracket, '-', '+', '\\\\', quote characters, 0', 0x, :-, layout, %, /*, a non-ASCII letter, a float prefix) each as is, with '.', and with ' .\\n', handed to Exec and to Query; all byte strings of length 1 and (quick: every 7th; thorough: all) of length 2; (b) EVERY registered procedure (read from the interpreter through a verif-tagged accessor, so the matrix follows the code) except halt/0,1 x all tuples of 14 (thorough: 22) argument shapes for arity <= 3 and of 8 (arity 4, 5) / 6 shapes above (unbound, atoms incl. empty, [], integers incl. extremes, float, compound, proper/partial/improper list, string, a stream, callable and non-callable terms), first answer plus one retry then Close, on an interpreter with real streams and (quick: every 5th tuple) on the documented prolog.New(nil, nil); (c) EVERY evaluable functor of eval's dispatch tables (read through a verif-tagged accessor) x a 25-value operand grid (unbound, atom, integers incl. 63/64/-64/extremes, floats incl. -0.0, largest and smallest, compound, string, lists, nested error) for both operands, unary ones also over every unary functor nested inside (thorough: every binary too), each under is/2, three comparisons and catch/3; (d) every procedure of arity 1..4 x 7 kinds of stream argument (closed input/output, open text/binary input/output, at end, closed alias) in every argument position x all tuples of 10 other shapes (quick, arity 4: 5); (e) database histories: all conjunctions of <= 3 (thorough: 4) goals from a 20-goal menu that calls, retracts, asserts, abolishes and enumerates a dynamic predicate with three clauses while calls of it are open, with and without a final fail, up to 20 answers; (f) stream-state histories: all sequences of <= 3 (4) of 14 operations that open, close, alias and make current input/output streams (the standard streams included), each followed by each of 17 probes that use a stream; (g) 20 file names x 8 forms of include/ensure_loaded/consult (directive, initialization goal, between clauses, goal, retried goal, list notation) over an in-memory file system with self-including, mutually including and mutually loading files, a chain of 300 inclusions, a missing file, a file with a syntax error; (h) deep recursion: 12 recursion shapes (tail and non-tail counting, list construction and traversal, through call/1, catch/3, if-then-else, disjunction, mutual recursion, an error thrown at the bottom, append/3, findall/3 and ==/2 of a long list) at depths 100000 and 300000 under a 256 MB stack limit (the scaled equivalent of 1.2 million levels under Go's default limit, which is what fits into a 2 GB memory bound); (j) 17 files of malformed and well-formed text x 3 eof_actions x all sequences of <= 3 (4) of 6 stream operations (read/2, get_char/2, peek_char/2, at_end_of_stream/1, read_term/3, stream_property/2), each caught; (i) long lists and wide compounds: 22 goals that unify, compare, copy, collect the variables of, sort, assert, throw, call, write, take apart lists of 3 million elements and compounds of 3 million arguments (standing for 10 million under the default limit), first answer. Distinct = text or goal.",
+		Explanation:   "state = a fresh (or regularly renewed) real interpreter in an isolated worker process; transition = one Exec/Query call; oracle: the worker process survives (a fatal runtime error is attributed to the exact input through a write-ahead record, re-running the batch in fine mode), the call returns (per-case watchdog), an error raised by a predicate is error(Formal, _) with an ISO formal error term, and no returned error is the residue of a recovered Go panic",
+		Assumptions:   []string{"workers run in an empty scratch directory with GOMAXPROCS=1 and a 256 MB goroutine stack limit so that unbounded recursion dies quickly", "a Go error returned for a text that does not parse is the API's way to report a syntax error and is accepted"},
 		Work:          c05Work,
 		Replay:        c05Replay,
 		CrashTolerant: true,
